@@ -203,12 +203,13 @@ func (r *replicator) processOne(ctx context.Context, wg *sync.WaitGroup) error {
 		return err
 	}
 
-	if err := r.processItems(ctx, wg, e); err != nil {
+	err = r.processItems(ctx, wg, e)
+	if err != nil {
 		r.logger.Warn("process item ended", zap.Error(err))
 	}
 
 	// mark this process has done
-	r.processEntryDone(e)
+	r.processEntryDone(e, err == nil)
 	return nil
 }
 
@@ -345,13 +346,19 @@ func (r *replicator) dropQueuedItem() {
 	}
 }
 
-func (r *replicator) processEntryDone(item processItem) {
+func (r *replicator) processEntryDone(item processItem, fetched bool) {
 	r.muProcess.Lock()
 
 	r.taskInProgress--
 
-	// remove hash from queued list
-	r.tasks[item.GetHash()] = stateFetched
+	if fetched {
+		// remove hash from queued list
+		r.tasks[item.GetHash()] = stateFetched
+	} else {
+		// the fetch failed or was cancelled: forget the hash, so that it is fetched
+		// again the next time it is announced
+		delete(r.tasks, item.GetHash())
+	}
 
 	// if there no more task to proceed, trigger idle method
 	if r.isIdle() {
